@@ -22,6 +22,27 @@ use serde_json::{json, Value};
 use std::sync::atomic::{AtomicU64, Ordering as AO};
 use std::sync::Arc;
 
+/// How a section change is carried out: 0 = the builder's own method (answer(), ...), 1 = back to the
+/// MessageBuilder with builder() and forward from there, 2 = through the From conversions.
+static ROUTE: std::sync::atomic::AtomicU8 = std::sync::atomic::AtomicU8::new(0);
+/// How the builder is started: 0 = fresh, 1 = start_answer(request, NXDOMAIN), 2 = start_error(request, SERVFAIL)
+static INIT: std::sync::atomic::AtomicU8 = std::sync::atomic::AtomicU8::new(0);
+/// How a record is pushed: 0 = push(record), 1 = push_ref(&record) where available (answer section)
+static PUSH_REF: std::sync::atomic::AtomicBool = std::sync::atomic::AtomicBool::new(false);
+
+trait Tgt: Composer + Clone {}
+impl<T: Composer + Clone> Tgt for T {}
+
+/// into_message() needs a freezable target (stream targets are not)
+fn into_msg<T: Composer + Clone + FreezeBuilder<Octets: AsRef<[u8]>>>(b: &B<T>) -> Option<Vec<u8>> {
+    Some(match b.clone() {
+        B::Q(x) => x.into_message().as_slice().to_vec(),
+        B::An(x) => x.into_message().as_slice().to_vec(),
+        B::Ns(x) => x.into_message().as_slice().to_vec(),
+        B::Ar(x) => x.into_message().as_slice().to_vec(),
+    })
+}
+
 type N = Name<Vec<u8>>;
 type Rd = AllRecordData<Vec<u8>, N>;
 
@@ -111,6 +132,8 @@ enum Op {
     Q(usize),
     R(usize),
     Opt,
+    /// OPT with extended rcode BADCOOKIE (23: low nibble 7 in the header, 1 in the OPT TTL), version 1, two options
+    Opt2,
     /// pad record sized so that the message ends exactly at this offset
     PadTo(usize),
     Goto(usize),
@@ -124,6 +147,7 @@ enum Op {
 enum Item {
     R(usize),
     Opt,
+    Opt2,
     Pad(usize),
 }
 
@@ -133,6 +157,10 @@ struct Model {
     questions: Vec<usize>,
     sections: [Vec<Item>; 3],
     limit: Option<usize>,
+    /// expected header after start_answer/start_error: (id, rd, rcode) - None for a fresh builder
+    header: Option<(u16, bool, u8)>,
+    /// low rcode bits the header must show (set_rcode of an OPT builder is a header change that stays)
+    rcode: u8,
 }
 
 enum B<T> {
@@ -185,6 +213,10 @@ struct Cfg<T> {
     make: fn() -> T,
     /// (stream slice incl. shim) if this is a stream target
     stream: Option<fn(&T) -> Vec<u8>>,
+    /// the message octets held by a (finished) target
+    view: fn(&T) -> Vec<u8>,
+    /// the octets into_message() hands out, where the target supports it
+    into_msg: fn(&B<T>) -> Option<Vec<u8>>,
     compressing: bool,
 }
 
@@ -193,7 +225,7 @@ fn pad_record(len: usize) -> Record<N, Rd> {
     Record::new(name(&[b"a"]), Class::IN, Ttl::from_secs(7), Rd::Unknown(UnknownRecordData::from_octets(Rtype::from_int(65283), vec![0xEE; len]).unwrap()))
 }
 
-fn push_any<T: Composer + Clone>(b: B<T>, rec: Record<N, Rd>) -> (B<T>, Option<bool>) {
+fn push_any<T: Tgt>(b: B<T>, rec: Record<N, Rd>) -> (B<T>, Option<bool>) {
     match b {
         B::An(mut x) => {
             let r = x.push(rec).is_ok();
@@ -212,7 +244,7 @@ fn push_any<T: Composer + Clone>(b: B<T>, rec: Record<N, Rd>) -> (B<T>, Option<b
 }
 
 /// Returns (builder, push result, pad length used).
-fn apply_pad<T: Composer + Clone>(b: B<T>, target: usize) -> (B<T>, Option<bool>, usize) {
+fn apply_pad<T: Tgt>(b: B<T>, target: usize) -> (B<T>, Option<bool>, usize) {
     let cur = b.slice().len();
     // measure the overhead of an empty pad on a clone (the owner may or may not get compressed)
     let (probe, ok) = push_any(b.clone(), pad_record(0));
@@ -225,7 +257,7 @@ fn apply_pad<T: Composer + Clone>(b: B<T>, target: usize) -> (B<T>, Option<bool>
     (nb, r, len)
 }
 
-fn apply<T: Composer + Clone>(b: B<T>, op: Op, sp: &[RSpec]) -> (B<T>, Option<bool>) {
+fn apply<T: Tgt>(b: B<T>, op: Op, sp: &[RSpec]) -> (B<T>, Option<bool>) {
     match op {
         Op::PadTo(_) => unreachable!("handled by apply_pad"),
         Op::Q(i) => match b {
@@ -237,7 +269,7 @@ fn apply<T: Composer + Clone>(b: B<T>, op: Op, sp: &[RSpec]) -> (B<T>, Option<bo
         },
         Op::R(i) => match b {
             B::An(mut x) => {
-                let r = x.push(sp[i].rec.clone()).is_ok();
+                let r = if PUSH_REF.load(AO::Relaxed) { x.push_ref(&sp[i].rec).is_ok() } else { x.push(sp[i].rec.clone()).is_ok() };
                 (B::An(x), Some(r))
             }
             B::Ns(mut x) => {
@@ -263,6 +295,61 @@ fn apply<T: Composer + Clone>(b: B<T>, op: Op, sp: &[RSpec]) -> (B<T>, Option<bo
             }
             other => (other, None),
         },
+        Op::Opt2 => match b {
+            B::Ar(mut x) => {
+                let r = x
+                    .opt(|o| {
+                        o.set_udp_payload_size(4096);
+                        o.set_version(1);
+                        o.set_rcode(domain::base::iana::OptRcode::BADCOOKIE);
+                        o.push_raw_option(domain::base::iana::OptionCode::from_int(65001), 2, |t| t.append_slice(&[9, 8]))?;
+                        o.push_raw_option(domain::base::iana::OptionCode::from_int(65002), 0, |_| Ok(()))
+                    })
+                    .is_ok();
+                (B::Ar(x), Some(r))
+            }
+            other => (other, None),
+        },
+        Op::Goto(st) if ROUTE.load(AO::Relaxed) == 1 => {
+            // back to the message builder, forward from there
+            let mb = match b {
+                B::Q(x) => x.builder(),
+                B::An(x) => x.builder(),
+                B::Ns(x) => x.builder(),
+                B::Ar(x) => x.builder(),
+            };
+            (
+                match st {
+                    0 => B::Q(mb.question()),
+                    1 => B::An(mb.answer()),
+                    2 => B::Ns(mb.authority()),
+                    _ => B::Ar(mb.additional()),
+                },
+                None,
+            )
+        }
+        Op::Goto(st) if ROUTE.load(AO::Relaxed) == 2 => (
+            // the From conversions between the builder types
+            match (b, st) {
+                (B::Q(x), 0) => B::Q(x),
+                (B::Q(x), 1) => B::An(x.into()),
+                (B::Q(x), 2) => B::Ns(x.into()),
+                (B::Q(x), _) => B::Ar(x.into()),
+                (B::An(x), 0) => B::Q(x.into()),
+                (B::An(x), 1) => B::An(x),
+                (B::An(x), 2) => B::Ns(x.into()),
+                (B::An(x), _) => B::Ar(x.into()),
+                (B::Ns(x), 0) => B::Q(x.into()),
+                (B::Ns(x), 1) => B::An(x.into()),
+                (B::Ns(x), 2) => B::Ns(x),
+                (B::Ns(x), _) => B::Ar(x.into()),
+                (B::Ar(x), 0) => B::Q(x.into()),
+                (B::Ar(x), 1) => B::An(x.into()),
+                (B::Ar(x), 2) => B::Ns(x.into()),
+                (B::Ar(x), _) => B::Ar(x),
+            },
+            None,
+        ),
         Op::Goto(st) => (
             match (b, st) {
                 (B::Q(x), 0) => B::Q(x.question()),
@@ -329,7 +416,7 @@ fn enabled(m: &Model, op: Op) -> bool {
     match op {
         Op::Q(_) => m.stage == 0,
         Op::R(_) => m.stage >= 1,
-        Op::Opt => m.stage == 3 && !m.sections[2].contains(&Item::Opt),
+        Op::Opt | Op::Opt2 => m.stage == 3 && !m.sections[2].contains(&Item::Opt) && !m.sections[2].contains(&Item::Opt2),
         Op::PadTo(_) => m.stage >= 1,
         Op::Goto(st) => st != m.stage,
         Op::Rewind => true,
@@ -390,7 +477,7 @@ fn norm_rdata(msg: &[u8], rtype: u16, pos: usize, rdata: &[u8]) -> Result<Vec<u8
     }
 }
 
-fn check_state<T: Composer + Clone>(cfg: &Cfg<T>, b: &B<T>, m: &Model, sp: &[RSpec]) -> Result<(), (String, String)> {
+fn check_state<T: Tgt>(cfg: &Cfg<T>, b: &B<T>, m: &Model, sp: &[RSpec]) -> Result<(), (String, String)> {
     let octets = b.slice();
     let raw = read_message(octets).map_err(|e| ("unparseable".to_string(), format!("independent reader fails: {e}")))?;
     if raw.end != octets.len() {
@@ -415,6 +502,11 @@ fn check_state<T: Composer + Clone>(cfg: &Cfg<T>, b: &B<T>, m: &Model, sp: &[RSp
                         return Err(("opt-mismatch".into(), format!("OPT reads back as type {} class {} ttl {:#x} rdata {}", r.rtype, r.class, r.ttl, hex(&r.rdata))));
                     }
                 }
+                Item::Opt2 => {
+                    if r.rtype != 41 || !r.owner.is_empty() || r.class != 4096 || r.ttl != 0x0101_0000 || r.rdata != [0xFD, 0xE9, 0, 2, 9, 8, 0xFD, 0xEA, 0, 0] {
+                        return Err(("opt-mismatch".into(), format!("OPT (BADCOOKIE, version 1, two options) reads back as type {} class {} ttl {:#x} rdata {}", r.rtype, r.class, r.ttl, hex(&r.rdata))));
+                    }
+                }
                 Item::Pad(len) => {
                     if r.owner != labels(&[b"a"]) && !mc::wire::labels_eq_ci(&r.owner, &labels(&[b"a"])) || r.rtype != 65283 || r.ttl != 7 || r.rdata.len() != *len || r.rdata.iter().any(|x| *x != 0xEE) {
                         return Err(("pad-mismatch".into(), format!("section {s} record {i} (pad of {len}) reads back as type {} len {}", r.rtype, r.rdata.len())));
@@ -434,6 +526,46 @@ fn check_state<T: Composer + Clone>(cfg: &Cfg<T>, b: &B<T>, m: &Model, sp: &[RSp
                     }
                 }
             }
+        }
+    }
+    // header: what start_answer/start_error copied from the request, and the low rcode bits
+    {
+        let flags = u16::from_be_bytes([octets[2], octets[3]]);
+        let id = u16::from_be_bytes([octets[0], octets[1]]);
+        if (flags & 0xF) as u8 != m.rcode {
+            return Err(("header-rcode".into(), format!("header rcode bits {} expected {}", flags & 0xF, m.rcode)));
+        }
+        if let Some((want_id, rd, _)) = m.header {
+            if id != want_id || flags & 0x8000 == 0 || (flags & 0x0100 != 0) != rd || flags & 0x7800 != 0 {
+                return Err(("header-of-response".into(), format!("response header id {id:#x} flags {flags:#06x}: expected id {want_id:#x}, QR set, RD {rd}, opcode QUERY")));
+            }
+        }
+    }
+    // every way of ending the build hands out the same octets (each costs a copy of the message:
+    // done for messages up to 4 KiB, i.e. everywhere but in the long-pad states)
+    if octets.len() <= 4096 {
+        let fin: T = match b.clone() {
+            B::Q(x) => x.finish(),
+            B::An(x) => x.finish(),
+            B::Ns(x) => x.finish(),
+            B::Ar(x) => x.finish(),
+        };
+        if (cfg.view)(&fin) != octets {
+            return Err(("finish-differs".into(), "finish() hands out other octets than as_slice() showed".into()));
+        }
+        if let Some(msg_octets) = (cfg.into_msg)(b) {
+            if msg_octets != octets {
+                return Err(("into_message-differs".into(), "into_message() hands out other octets than as_slice() showed".into()));
+            }
+        }
+        let view: Vec<u8> = match b {
+            B::Q(x) => x.as_message().as_slice().to_vec(),
+            B::An(x) => x.as_message().as_slice().to_vec(),
+            B::Ns(x) => x.as_message().as_slice().to_vec(),
+            B::Ar(x) => x.as_message().as_slice().to_vec(),
+        };
+        if view != octets {
+            return Err(("as_message-differs".into(), "as_message() shows other octets than as_slice()".into()));
         }
     }
     // every pointer targets an offset expressible in 14 bits that lies before it
@@ -472,7 +604,7 @@ struct Shared<'a> {
     pushes_err: AtomicU64,
 }
 
-fn dfs<T: Composer + Clone>(sh: &Shared, cfg: &Cfg<T>, b: &B<T>, m: &Model, hist: &mut Vec<Op>, depth: usize) {
+fn dfs<T: Tgt>(sh: &Shared, cfg: &Cfg<T>, b: &B<T>, m: &Model, hist: &mut Vec<Op>, depth: usize) {
     if depth == 0 {
         return;
     }
@@ -504,6 +636,10 @@ fn dfs<T: Composer + Clone>(sh: &Shared, cfg: &Cfg<T>, b: &B<T>, m: &Model, hist
                     (Op::Q(i), Some(true)) => nm.questions.push(i),
                     (Op::R(i), Some(true)) => nm.sections[m.stage - 1].push(Item::R(i)),
                     (Op::Opt, Some(true)) => nm.sections[2].push(Item::Opt),
+                    (Op::Opt2, Some(true)) => {
+                        nm.sections[2].push(Item::Opt2);
+                        nm.rcode = 7;
+                    }
                     (Op::PadTo(_), Some(true)) => nm.sections[m.stage - 1].push(Item::Pad(pad_len)),
                     (Op::PadTo(_), None) => {
                         // target not reachable from here: not an operation
@@ -521,6 +657,14 @@ fn dfs<T: Composer + Clone>(sh: &Shared, cfg: &Cfg<T>, b: &B<T>, m: &Model, hist
                             );
                             tainted = true || tainted;
                         }
+                    }
+                    (Op::Goto(st), _) if ROUTE.load(AO::Relaxed) == 1 => {
+                        // documented: builder() drops all questions and records
+                        nm.questions.clear();
+                        for s in 0..3 {
+                            nm.sections[s].clear();
+                        }
+                        nm.stage = st;
                     }
                     (Op::Goto(st), _) => {
                         // going back drops all later sections; the section entered keeps its content
@@ -589,7 +733,7 @@ fn op_kind(op: Op) -> &'static str {
     match op {
         Op::Q(_) => "question",
         Op::R(_) => "record",
-        Op::Opt => "opt",
+        Op::Opt | Op::Opt2 => "opt",
         Op::PadTo(_) => "pad",
         _ => "other",
     }
@@ -599,12 +743,38 @@ fn comp_of(cfg: &str) -> &str {
     cfg.split('/').next().unwrap_or(cfg)
 }
 
-fn run_cfg<T: Composer + Clone + Send + Sync>(sh: &Shared, cfg: &Cfg<T>, depth: usize, start: Option<Vec<Op>>) {
-    let init = || B::Q(MessageBuilder::from_target((cfg.make)()).ok().expect("harness: target").question());
+/// The request that start_answer/start_error answer: ID 0x5A5A, RD set, question QS[0].
+fn request_message() -> Message<Vec<u8>> {
+    let mut b = MessageBuilder::new_vec();
+    b.header_mut().set_id(0x5A5A);
+    b.header_mut().set_rd(true);
+    let mut q = b.question();
+    q.push(Question::new(name(QS[0].0), Rtype::from_int(QS[0].1), Class::IN)).unwrap();
+    q.into_message()
+}
+
+fn init_builder<T: Tgt>(cfg: &Cfg<T>) -> B<T> {
+    let mb = MessageBuilder::from_target((cfg.make)()).ok().expect("harness: target");
+    match INIT.load(AO::Relaxed) {
+        0 => B::Q(mb.question()),
+        1 => B::An(mb.start_answer(&request_message(), domain::base::iana::Rcode::NXDOMAIN).ok().expect("harness: start_answer")),
+        _ => B::An(mb.start_error(&request_message(), domain::base::iana::Rcode::SERVFAIL)),
+    }
+}
+
+fn init_model() -> Model {
+    match INIT.load(AO::Relaxed) {
+        0 => Model::default(),
+        k => Model { stage: 1, questions: vec![0], header: Some((0x5A5A, true, 0)), rcode: if k == 1 { 3 } else { 2 }, ..Model::default() },
+    }
+}
+
+fn run_cfg<T: Tgt + Send + Sync>(sh: &Shared, cfg: &Cfg<T>, depth: usize, start: Option<Vec<Op>>) {
+    let init = || init_builder(cfg);
     if let Some(h) = start {
         // replay a single history step by step
         let mut b = init();
-        let mut m = Model::default();
+        let mut m = init_model();
         for (i, op) in h.iter().enumerate() {
             let sh1 = Shared { ops: std::slice::from_ref(op), ..shared_clone(sh) };
             let mut hist: Vec<Op> = h[..i].to_vec();
@@ -631,7 +801,7 @@ fn run_cfg<T: Composer + Clone + Send + Sync>(sh: &Shared, cfg: &Cfg<T>, depth: 
         return;
     }
     let b0 = init();
-    let m0 = Model::default();
+    let m0 = init_model();
     // parallelise over the first two operations
     let firsts: Vec<Op> = sh.ops.iter().cloned().filter(|o| enabled(&m0, *o) && !matches!(o, Op::PadTo(_))).collect();
     firsts.par_iter().for_each(|&o1| {
@@ -675,6 +845,17 @@ fn advance_model(m: &mut Model, op: Op, res: Option<bool>, before_len: usize) {
         (Op::Q(i), Some(true)) => m.questions.push(i),
         (Op::R(i), Some(true)) => m.sections[m.stage - 1].push(Item::R(i)),
         (Op::Opt, Some(true)) => m.sections[2].push(Item::Opt),
+        (Op::Opt2, Some(true)) => {
+            m.sections[2].push(Item::Opt2);
+            m.rcode = 7;
+        }
+        (Op::Goto(st), _) if ROUTE.load(AO::Relaxed) == 1 => {
+            m.questions.clear();
+            for s in 0..3 {
+                m.sections[s].clear();
+            }
+            m.stage = st;
+        }
         (Op::Goto(st), _) => {
             if st < m.stage {
                 for s in st..3 {
@@ -712,6 +893,7 @@ fn parse_op(s: &str) -> Op {
     } else {
         match s {
             "Opt" => Op::Opt,
+        "Opt2" => Op::Opt2,
             "Rewind" => Op::Rewind,
             "LimHere" => Op::LimHere,
             "Clr" => Op::Clr,
@@ -722,22 +904,22 @@ fn parse_op(s: &str) -> Op {
 
 macro_rules! cfgs {
     ($e:ident) => {{
-        go(&$e, &Cfg { name: "none/Vec", make: || Vec::<u8>::new(), stream: None, compressing: false });
-        go(&$e, &Cfg { name: "static/Vec", make: || StaticCompressor::new(Vec::<u8>::new()), stream: None, compressing: true });
-        go(&$e, &Cfg { name: "tree/Vec", make: || TreeCompressor::new(Vec::<u8>::new()), stream: None, compressing: true });
-        go(&$e, &Cfg { name: "hash/Vec", make: || HashCompressor::new(Vec::<u8>::new()), stream: None, compressing: true });
-        go(&$e, &Cfg { name: "none/Stream<Vec>", make: || StreamTarget::new_vec(), stream: Some(|t| t.as_stream_slice().to_vec()), compressing: false });
-        go(&$e, &Cfg { name: "static/Stream<Vec>", make: || StaticCompressor::new(StreamTarget::new_vec()), stream: Some(|t| t.as_target().as_stream_slice().to_vec()), compressing: true });
-        go(&$e, &Cfg { name: "tree/Stream<Vec>", make: || TreeCompressor::new(StreamTarget::new_vec()), stream: Some(|t| t.as_target().as_stream_slice().to_vec()), compressing: true });
-        go(&$e, &Cfg { name: "hash/Stream<Vec>", make: || HashCompressor::new(StreamTarget::new_vec()), stream: Some(|t| t.as_target().as_stream_slice().to_vec()), compressing: true });
-        go(&$e, &Cfg { name: "none/BytesMut", make: || BytesMut::new(), stream: None, compressing: false });
-        go(&$e, &Cfg { name: "tree/BytesMut", make: || TreeCompressor::new(BytesMut::new()), stream: None, compressing: true });
-        go(&$e, &Cfg { name: "hash/Stream<BytesMut>", make: || HashCompressor::new(StreamTarget::new_bytes()), stream: Some(|t| t.as_target().as_stream_slice().to_vec()), compressing: true });
-        go(&$e, &Cfg { name: "none/Array<100>", make: || octseq::Array::<100>::new(), stream: None, compressing: false });
-        go(&$e, &Cfg { name: "static/Array<100>", make: || StaticCompressor::new(octseq::Array::<100>::new()), stream: None, compressing: true });
-        go(&$e, &Cfg { name: "tree/Array<600>", make: || TreeCompressor::new(octseq::Array::<600>::new()), stream: None, compressing: true });
-        go(&$e, &Cfg { name: "hash/Array<600>", make: || HashCompressor::new(octseq::Array::<600>::new()), stream: None, compressing: true });
-        go(&$e, &Cfg { name: "static/Stream<Array<600>>", make: || StaticCompressor::new(StreamTarget::new(octseq::Array::<600>::new()).unwrap()), stream: Some(|t| t.as_target().as_stream_slice().to_vec()), compressing: true });
+        go(&$e, &Cfg { name: "none/Vec", make: || Vec::<u8>::new(), into_msg: |b| into_msg(b), view: |t| AsRef::<[u8]>::as_ref(t).to_vec(), stream: None, compressing: false });
+        go(&$e, &Cfg { name: "static/Vec", make: || StaticCompressor::new(Vec::<u8>::new()), into_msg: |b| into_msg(b), view: |t| AsRef::<[u8]>::as_ref(t.as_target()).to_vec(), stream: None, compressing: true });
+        go(&$e, &Cfg { name: "tree/Vec", make: || TreeCompressor::new(Vec::<u8>::new()), into_msg: |b| into_msg(b), view: |t| AsRef::<[u8]>::as_ref(t.as_target()).to_vec(), stream: None, compressing: true });
+        go(&$e, &Cfg { name: "hash/Vec", make: || HashCompressor::new(Vec::<u8>::new()), into_msg: |b| into_msg(b), view: |t| AsRef::<[u8]>::as_ref(t.as_target()).to_vec(), stream: None, compressing: true });
+        go(&$e, &Cfg { name: "none/Stream<Vec>", make: || StreamTarget::new_vec(), into_msg: |_| None, view: |t| t.as_dgram_slice().to_vec(), stream: Some(|t| t.as_stream_slice().to_vec()), compressing: false });
+        go(&$e, &Cfg { name: "static/Stream<Vec>", make: || StaticCompressor::new(StreamTarget::new_vec()), into_msg: |_| None, view: |t| t.as_target().as_dgram_slice().to_vec(), stream: Some(|t| t.as_target().as_stream_slice().to_vec()), compressing: true });
+        go(&$e, &Cfg { name: "tree/Stream<Vec>", make: || TreeCompressor::new(StreamTarget::new_vec()), into_msg: |_| None, view: |t| t.as_target().as_dgram_slice().to_vec(), stream: Some(|t| t.as_target().as_stream_slice().to_vec()), compressing: true });
+        go(&$e, &Cfg { name: "hash/Stream<Vec>", make: || HashCompressor::new(StreamTarget::new_vec()), into_msg: |_| None, view: |t| t.as_target().as_dgram_slice().to_vec(), stream: Some(|t| t.as_target().as_stream_slice().to_vec()), compressing: true });
+        go(&$e, &Cfg { name: "none/BytesMut", make: || BytesMut::new(), into_msg: |b| into_msg(b), view: |t| AsRef::<[u8]>::as_ref(t).to_vec(), stream: None, compressing: false });
+        go(&$e, &Cfg { name: "tree/BytesMut", make: || TreeCompressor::new(BytesMut::new()), into_msg: |b| into_msg(b), view: |t| AsRef::<[u8]>::as_ref(t.as_target()).to_vec(), stream: None, compressing: true });
+        go(&$e, &Cfg { name: "hash/Stream<BytesMut>", make: || HashCompressor::new(StreamTarget::new_bytes()), into_msg: |_| None, view: |t| t.as_target().as_dgram_slice().to_vec(), stream: Some(|t| t.as_target().as_stream_slice().to_vec()), compressing: true });
+        go(&$e, &Cfg { name: "none/Array<100>", make: || octseq::Array::<100>::new(), into_msg: |b| into_msg(b), view: |t| AsRef::<[u8]>::as_ref(t).to_vec(), stream: None, compressing: false });
+        go(&$e, &Cfg { name: "static/Array<100>", make: || StaticCompressor::new(octseq::Array::<100>::new()), into_msg: |b| into_msg(b), view: |t| AsRef::<[u8]>::as_ref(t.as_target()).to_vec(), stream: None, compressing: true });
+        go(&$e, &Cfg { name: "tree/Array<600>", make: || TreeCompressor::new(octseq::Array::<600>::new()), into_msg: |b| into_msg(b), view: |t| AsRef::<[u8]>::as_ref(t.as_target()).to_vec(), stream: None, compressing: true });
+        go(&$e, &Cfg { name: "hash/Array<600>", make: || HashCompressor::new(octseq::Array::<600>::new()), into_msg: |b| into_msg(b), view: |t| AsRef::<[u8]>::as_ref(t.as_target()).to_vec(), stream: None, compressing: true });
+        go(&$e, &Cfg { name: "static/Stream<Array<600>>", make: || StaticCompressor::new(StreamTarget::new(octseq::Array::<600>::new()).unwrap()), into_msg: |_| None, view: |t| t.as_target().as_dgram_slice().to_vec(), stream: Some(|t| t.as_target().as_stream_slice().to_vec()), compressing: true });
     }};
 }
 
@@ -782,7 +964,7 @@ fn rdata_reads_back(msg: &[u8], pos: usize, len: usize, v: &mc::rgen::Value) -> 
     Ok(())
 }
 
-fn part_values<T: Composer + Clone + Send + Sync>(env: &Env, cfg: &Cfg<T>, vals: &[mc::rgen::Value]) {
+fn part_values<T: Tgt + Send + Sync>(env: &Env, cfg: &Cfg<T>, vals: &[mc::rgen::Value]) {
     let sp = env.sh.sp;
     let ctx = env.sh.ctx;
     vals.par_iter().for_each(|v| {
@@ -900,6 +1082,15 @@ fn part_values<T: Composer + Clone + Send + Sync>(env: &Env, cfg: &Cfg<T>, vals:
     env.stats.count_n(&format!("{}.every_type_cases", cfg.name), vals.len() as u64 * 3);
 }
 
+struct Timer(&'static str, std::time::Instant);
+impl Drop for Timer {
+    fn drop(&mut self) {
+        if std::env::var("C02_TIMING").is_ok() {
+            eprintln!("[c02] {} {:.1}s", self.0, self.1.elapsed().as_secs_f64());
+        }
+    }
+}
+
 struct Env<'a> {
     sh: &'a Shared<'a>,
     stats: &'a Stats,
@@ -912,7 +1103,9 @@ struct Env<'a> {
     vals: &'a [mc::rgen::Value],
 }
 
-fn go<T: Composer + Clone + Send + Sync>(env: &Env, cfg: &Cfg<T>) {
+fn go<T: Tgt + Send + Sync>(env: &Env, cfg: &Cfg<T>) {
+    let t0 = std::time::Instant::now();
+    let _timer = Timer(cfg.name, t0);
     env.cfg_names.lock().unwrap().push(cfg.name);
     if let Some((c, h)) = env.replay {
         if c == cfg.name {
@@ -923,12 +1116,24 @@ fn go<T: Composer + Clone + Send + Sync>(env: &Env, cfg: &Cfg<T>) {
     }
     let _ = cfg.compressing;
     let is_array = cfg.name.contains("Array");
-    // pass 1: everything but the two large pads
-    let sh1 = Shared { ops: env.small_ops, ..shared_clone(env.sh) };
-    run_cfg(&sh1, cfg, env.depth, None);
-    env.total_tr.fetch_add(sh1.transitions.load(AO::Relaxed), AO::Relaxed);
-    env.stats.count_n(&format!("{}.pushes_ok", cfg.name), sh1.pushes_ok.load(AO::Relaxed));
-    env.stats.count_n(&format!("{}.pushes_failed", cfg.name), sh1.pushes_err.load(AO::Relaxed));
+    // pass 1: everything but the two large pads - under every way of changing sections, of starting the
+    // builder and of pushing
+    for (route, init, push_ref) in [(0u8, 0u8, false), (1, 0, false), (2, 0, false), (0, 1, false), (0, 2, true)] {
+        if is_array && init != 0 {
+            continue; // (the copied question alone is most of a 100-octet array)
+        }
+        ROUTE.store(route, AO::Relaxed);
+        INIT.store(init, AO::Relaxed);
+        PUSH_REF.store(push_ref, AO::Relaxed);
+        let sh1 = Shared { ops: env.small_ops, ..shared_clone(env.sh) };
+        run_cfg(&sh1, cfg, if (route, init) == (0, 0) { env.depth } else { env.depth - 1 }, None);
+        env.total_tr.fetch_add(sh1.transitions.load(AO::Relaxed), AO::Relaxed);
+        env.stats.count_n(&format!("{}.route{route}.init{init}.pushes_ok", cfg.name), sh1.pushes_ok.load(AO::Relaxed));
+        env.stats.count_n(&format!("{}.route{route}.init{init}.pushes_failed", cfg.name), sh1.pushes_err.load(AO::Relaxed));
+    }
+    ROUTE.store(0, AO::Relaxed);
+    INIT.store(0, AO::Relaxed);
+    PUSH_REF.store(false, AO::Relaxed);
     // pass 2: pad-focused alphabet crossing 0x3FFF and 0xFFFF
     if !is_array {
         let sh2 = Shared { ops: env.pad_ops, ..shared_clone(env.sh) };
@@ -951,7 +1156,7 @@ fn main() {
     for i in 0..sp.len() {
         ops.push(Op::R(i));
     }
-    ops.extend([Op::Opt, Op::Goto(0), Op::Goto(1), Op::Goto(2), Op::Goto(3), Op::Rewind, Op::LimPlus(30), Op::LimHere, Op::Clr]);
+    ops.extend([Op::Opt, Op::Opt2, Op::Goto(0), Op::Goto(1), Op::Goto(2), Op::Goto(3), Op::Rewind, Op::LimPlus(30), Op::LimHere, Op::Clr]);
     let depth = if ctx.quick() { 5 } else { 6 };
     let sh = Shared { ctx: &ctx, stats: &stats, sp: &sp, ops: &ops, transitions: AtomicU64::new(0), pushes_ok: AtomicU64::new(0), pushes_err: AtomicU64::new(0) };
     let total_tr = AtomicU64::new(0);
